@@ -138,7 +138,7 @@ def build(kind, prob, opts, rng, pool=None):
         return b, pts
     if kind == 'NeuralBound':
         b = NeuralBound.compute(prob['points'], prob['log_l'], prob['log_l_min'], enlarge_per_dim=e,
-                                n_networks=opts.get('n_networks', 1), neural_network_kwargs=dict(NN_KW),
+                                n_networks=opts.get('n_networks', 1), neural_network_kwargs=dict(opts.get('nn_kwargs') or NN_KW),
                                 pool=pool, rng=rng)
         return b, pts
     if kind == 'NautilusBound':
@@ -147,7 +147,7 @@ def build(kind, prob, opts, rng, pool=None):
                                   opts.get('log_v_target', np.log(prob['n_live'] / len(prob['points']))),
                                   enlarge_per_dim=e, n_points_min=opts.get('n_points_min'),
                                   split_threshold=opts.get('split_threshold', 100), periodic=per,
-                                  n_networks=opts.get('n_networks', 0), neural_network_kwargs=dict(NN_KW),
+                                  n_networks=opts.get('n_networks', 0), neural_network_kwargs=dict(opts.get('nn_kwargs') or NN_KW),
                                   pool=pool, rng=rng)
         return b, pts
     raise ValueError(kind)
